@@ -378,8 +378,17 @@ def _Solve_Axb(
         # constrained minimization
         # https://docs.scipy.org/doc/scipy/reference/generated/scipy.optimize.lsq_linear.html
         assert len(lb) == len(ub) != 0
+        # A is sparse, so the least-squares sub-problems go through lsmr, whose default iteration
+        # cap is min(A.shape): it stops unconverged on the very first (unconstrained) solve and
+        # the result is accepted as optimal with a 1e-3 error. Leave room to reach the tolerance.
         x = optimize.lsq_linear(
-            A, b.toarray().ravel(), bounds=(lb, ub), tol=1e-10, method="trf", verbose=0
+            A,
+            b.toarray().ravel(),
+            bounds=(lb, ub),
+            tol=1e-10,
+            method="trf",
+            verbose=0,
+            lsmr_maxiter=10 * A.shape[1],
         )
         x = x["x"]
 
